@@ -222,12 +222,72 @@ class PlanGen:
                 if rng.random() < 0.6:
                     g = self.group()
                     fin += [msg(S, "set", m, self.specs[m].get("initial", 0.0), group=g), msg(S, "wait", None, group=g)]
+            if getattr(self, "cleanup_checkpoint", 0.0) and rng.random() < self.cleanup_checkpoint:
+                fin.insert(0, msg(S, "checkpoint"))  # clean-up written as a plan of its own, with its checkpoint
             fin.append(msg(S, "null"))
             body = [{"op": "try", "site": S(), "body": body, "finally": fin}]
         body = self.staged(body)
         if rng.random() < 0.3:
             body.append({"op": "return", "value": rng.choice([7, "done", [1, 2]])})
         return body
+
+
+def nonresumable_tail(rng, body, S):
+    """Insert one `clear_checkpoint` at a top-level position of the first run and drop every explicit `checkpoint`
+    after it: from there on the plan is not resumable, whatever implicit checkpoints (unstage, unmonitor,
+    close_run ...) follow.  Returns the new body (the input is not modified)."""
+    body = copy.deepcopy(body)
+
+    def top(nodes):
+        # the statement list that holds the first open_run
+        for n in nodes:
+            if n.get("op") == "msg" and n.get("cmd") == "open_run":
+                return nodes
+        for n in nodes:
+            for k in ("body",):
+                if isinstance(n.get(k), list):
+                    r = top(n[k])
+                    if r is not None:
+                        return r
+        return None
+
+    lst = top(body)
+    if lst is None:
+        return body
+    i0 = next(i for i, n in enumerate(lst) if n.get("cmd") == "open_run")
+    inb = False
+    safe = []
+    for i, n in enumerate(lst):
+        if n.get("cmd") == "create":
+            inb = True
+        elif n.get("cmd") in ("save", "drop"):
+            inb = False
+        if i > i0 and not inb and n.get("op") == "msg":
+            safe.append(i + 1)
+    if not safe:
+        return body
+    cut = rng.choice(safe)
+    lst.insert(cut, msg(S, "clear_checkpoint"))
+
+    def strip(nodes, armed):
+        out = []
+        for n in nodes:
+            if n.get("cmd") == "clear_checkpoint":
+                armed = True
+                out.append(n)
+                continue
+            if armed and n.get("op") == "msg" and n.get("cmd") == "checkpoint":
+                continue
+            for k in ("body", "finally", "else"):
+                if isinstance(n.get(k), list):
+                    n[k], armed = strip(n[k], armed)
+            for h in n.get("handlers", []) or []:
+                h["body"], armed = strip(h["body"], armed)
+            out.append(n)
+        return out, armed
+
+    body, _ = strip(body, False)
+    return body
 
 
 def builtin_plan(rng, specs):
